@@ -205,13 +205,13 @@ Theorem read_order : forall file_of yaml_load s,
   | SDNotPositive => resolve file_of yaml_load (InStr s) = RAssert
   | SDInfinite => resolve file_of yaml_load (InStr s) = RInfinite
   | SDNone =>
-      if has_colon_space (chars s) then resolve file_of yaml_load (InStr s) = from_text yaml_load s
+      if is_text (chars s) then resolve file_of yaml_load (InStr s) = from_text yaml_load s
       else resolve file_of yaml_load (InStr s) =
            match file_of s with Some txt => from_text yaml_load txt | None => RRaise end
   end.
 Proof.
   intros. unfold resolve, read_str. destruct (string_die s); try reflexivity.
-  destruct (has_colon_space (chars s)); reflexivity.
+  destruct (is_text (chars s)); reflexivity.
 Qed.
 
 (* non-vacuity: concrete spellings *)
